@@ -151,6 +151,22 @@ impl From<usize> for DummyValue {
     }
 }
 
+/// Verification hook (compiled only with `--cfg vaporetto_verif`): the quantised weights of the
+/// last call of [`Trainer::train`], by decoded feature name (`C:<ngram>:<rel>`, `T:<types>:<rel>`,
+/// `D:<position>:<length>`), and the quantised bias under the name `bias`.
+#[cfg(vaporetto_verif)]
+#[doc(hidden)]
+pub static VERIF_LEARNED: std::sync::Mutex<Vec<(String, i32)>> = std::sync::Mutex::new(Vec::new());
+
+#[cfg(vaporetto_verif)]
+fn verif_feature_name(f: &BoundaryFeature) -> String {
+    match f {
+        BoundaryFeature::CharacterNgram(x) => format!("C:{}:{}", x.ngram, x.rel_position),
+        BoundaryFeature::CharacterTypeNgram(x) => format!("T:{:?}:{}", x.ngram, x.rel_position),
+        BoundaryFeature::DictionaryWord(d) => format!("D:{:?}:{}", d.position, d.length),
+    }
+}
+
 /// Trainer.
 ///
 /// # Examples
@@ -397,10 +413,21 @@ impl<'a> Trainer<'a> {
         let mut dict_weights = vec![(0, 0, 0); usize::from(self.dict_word_max_len)];
 
         let bias = unsafe { (bias / quantize_multiplier).to_int_unchecked::<i32>() };
+        #[cfg(vaporetto_verif)]
+        {
+            let mut learned = VERIF_LEARNED.lock().unwrap();
+            learned.clear();
+            learned.push(("bias".to_string(), bias));
+        }
 
         for (feature, fid) in self.feature_ids {
             let raw_weight = model.feature_coefficient(i32::try_from(fid)?, wb_idx);
             let weight = unsafe { (raw_weight / quantize_multiplier).to_int_unchecked::<i32>() };
+            #[cfg(vaporetto_verif)]
+            VERIF_LEARNED
+                .lock()
+                .unwrap()
+                .push((verif_feature_name(&feature), weight));
 
             if weight == 0 {
                 continue;
@@ -500,13 +527,7 @@ impl<'a> Trainer<'a> {
     pub fn verif_examples(&self) -> Vec<(Vec<(String, f64)>, f64)> {
         let mut names = vec![String::new(); self.feature_ids.len() + 1];
         for (f, &id) in &self.feature_ids {
-            names[id as usize] = match f {
-                BoundaryFeature::CharacterNgram(x) => format!("C:{}:{}", x.ngram, x.rel_position),
-                BoundaryFeature::CharacterTypeNgram(x) => {
-                    format!("T:{:?}:{}", x.ngram, x.rel_position)
-                }
-                BoundaryFeature::DictionaryWord(d) => format!("D:{:?}:{}", d.position, d.length),
-            };
+            names[id as usize] = verif_feature_name(f);
         }
         self.xs
             .iter()
